@@ -4,8 +4,14 @@
    forces every lazy view: record/ids.rs, reference_bases.rs, alternate_bases.rs, filters.rs, info.rs +
    info/field.rs + info/field/value.rs, samples.rs + samples/sample.rs + samples/series.rs +
    samples/series/value/genotype.rs, the typed values of record/value.rs, value/ty.rs and
-   value/array/values.rs, and the `&str` array views of noodles-vcf
-   (variant/record/{info/field,samples/series}/value/array/values.rs, which percent-decode).
+   value/array/values.rs, and the BCF record's own Character / String array views (`Characters`,
+   `Strings` in info/field/value.rs and samples/series.rs: split on ',', "." = missing, nothing is
+   percent-decoded).
+
+   The model follows the tree after the repairs 0b0f2ab (own raw array views), 0ba8d0b (an empty allele
+   string is `.`), a1ba5e6 (a GT series without values: the missing value for every sample), e4c926c
+   (INFO Character: exactly one character, of any encoded length) and a82186d (Samples::series yields
+   exactly n_fmt series).
 
    What is modelled, in the order of the code:
    [dec_frame]      read_record's framing is that of read_record_buf (shared read_site_length /
@@ -18,7 +24,7 @@
                     buffer with the stored offsets.
    the views        lz_chrom, lz_pos, lz_qual, lz_ids, lz_ref, lz_alts, lz_filters (with its
                     `read_type(..).unwrap()` and `unreachable!()`), lz_info, lz_samples (validate, the
-                    series iterator that runs until the block is empty, the per-sample `get` with its
+                    series iterator that yields format_count series, the per-sample `get` with its
                     `range(i, len)` arithmetic, the genotype view with the file-format dependent
                     phasing of the first allele).
    [lazy_read]      the RecordBuf try_from_variant_record builds, on RecordTyped.trecord (IndexSet /
@@ -27,13 +33,13 @@
    Results are those of the eager model: ROk / RErr (any io::Error) / RPanic.  All typed-value readers
    of record/value.rs are byte for byte the functions of record/codec/decoder/value.rs, so
    Typed.read_type and the value decoders of NV.Bcf.{Typed,Strings,Record,RecordTyped} are reused
-   where the lazy code does the same thing; the places where it does something else (Character /
-   String arrays, the samples block, genotypes, alleles, filters) are written out here.
+   where the lazy code does the same thing; the places where it does something else (Characters, the
+   samples block, genotypes, alleles, filters) are written out here.
 
    A Character is a Unicode scalar value (its code point, N): the lazy views decode UTF-8
-   ([utf8_first]).  Definitions only. *)
+   ([utf8_first], [utf8_chars]); the eager model NV.Bcf.Strings takes a Character to be one byte, which
+   is the same thing on ASCII text only.  Definitions only. *)
 From Coq Require Import ZArith NArith List Bool.
-From NV Require Import Base.Percent.
 From NV Require Import Bcf.Ints Bcf.Typed Bcf.Strings Bcf.Genotype Bcf.StringMap Bcf.Record Bcf.RecordTyped.
 Import ListNotations.
 Open Scope Z_scope.
@@ -68,6 +74,15 @@ Definition utf8_first (s : list N) : option (N * list N) :=
       | _ => None
       end
   end.
+
+(* str::chars() on well-formed UTF-8, collected.  The fuel is the length of the text (a character is at
+   least one byte long) *)
+Fixpoint utf8_chars_fuel (fuel : nat) (s : list N) : list N :=
+  match fuel with
+  | O => []
+  | S f => match utf8_first s with Some (c, r) => c :: utf8_chars_fuel f r | None => [] end
+  end.
+Definition utf8_chars (s : list N) : list N := utf8_chars_fuel (length s) s.
 
 (* ------------------------------------------------------------------ Fields::index *)
 Record bounds := {
@@ -191,19 +206,22 @@ Definition lz_ids (bd : bounds) (sb : list N) : rres (list str) :=
   rbind (lz_slice (fst (b_ids bd)) (snd (b_ids bd)) sb) (fun x =>
   ROk (match x with [] => [] | _ => split_on semicolon x end)).
 
-(* ReferenceBases::iter collected + String::from_utf8 *)
+(* Fields::reference_bases (an empty range is the missing allele `.`, 0ba8d0b), then
+   ReferenceBases::iter collected + String::from_utf8 *)
 Definition lz_ref (bd : bounds) (sb : list N) : rres str :=
   rbind (lz_slice (fst (b_ref bd)) (snd (b_ref bd)) sb) (fun x =>
-  if utf8_valid x then ROk x else RErr).
+  let y := match x with [] => [dot] | _ => x end in
+  if utf8_valid y then ROk y else RErr).
 
-(* AlternateBases::iter: read_value must give a String with a value *)
+(* AlternateBases::iter: read_value must give a String; the empty typed string is `.` (0ba8d0b) *)
 Fixpoint lz_alt_values (n : nat) (bs : list N) : rres (list str) :=
   match n with
   | O => ROk []
   | S n' =>
     match dec_str bs with
-    | Some (Some x, r) => rbind (lz_alt_values n' r) (fun l => ROk (x :: l))
-    | _ => RErr                                               (* "invalid alt value" *)
+    | Some (o, r) =>
+      rbind (lz_alt_values n' r) (fun l => ROk (match o with Some x => x | None => [dot] end :: l))
+    | None => RErr                                            (* "invalid alt value" *)
     end
   end.
 
@@ -257,49 +275,38 @@ Definition lz_filters (strings : smap) (bd : bounds) (sb : list N) : rres (list 
   rbind (lz_slice (b_alt_end bd) (b_filters_end bd) sb) (fun fs =>
   rbind (lz_filter_indices fs) (lz_resolve strings)).
 
-(* ------------------------------------------------------------------ `&str` as an array of values *)
-(* noodles-vcf .../value/array/values.rs: split(','), "." = missing, percent_decode *)
-Definition lz_char_piece (p : str) : rres (option N) :=
-  if str_eqb p [dot] then ROk None
-  else
-    let t := pct_dec p in
-    if utf8_valid t then
-      match utf8_first t with
-      | Some (c, []) => ROk (Some c)
-      | _ => RErr                                             (* "invalid character" *)
-      end
-    else RErr.
-
-Definition lz_chars (s : str) : rres (list (option N)) :=
-  match s with [] => ROk [] | _ => map_rres lz_char_piece (split_on comma s) end.
-
-Definition lz_str_piece (p : str) : rres (option str) :=
-  if str_eqb p [dot] then ROk None
-  else let t := pct_dec p in if utf8_valid t then ROk (Some t) else RErr.
-
-Definition lz_strs (s : str) : rres (list (option str)) :=
-  match s with [] => ROk [] | _ => map_rres lz_str_piece (split_on comma s) end.
-
 (* ------------------------------------------------------------------ INFO *)
-(* read_character_array_value / read_string_array_value + TryFrom<Array> *)
+(* read_character_value (e4c926c): exactly one character, whatever its encoded length *)
+Definition lz_info_char (vb : list N) : rres ival :=
+  rbind (dec_info_string vb) (fun o =>
+  match o with
+  | None => ROk (IS SNone)
+  | Some s =>
+    match utf8_chars s with
+    | [c] => ROk (IS (SChar c))
+    | _ => RErr                                               (* "invalid character value length" *)
+    end
+  end).
+
+(* read_character_array_value + the `Characters` view (0b0f2ab) + TryFrom<Array>:
+   split(',').flat_map(chars), '.' = missing *)
 Definition lz_info_chars (vb : list N) : rres ival :=
   rbind (dec_info_string vb) (fun o =>
   match o with
   | None => ROk (IS SNone)
-  | Some s => rbind (lz_chars s) (fun l => ROk (IS (SChars l)))
+  | Some s => ROk (IS (SChars (map char_of_byte (flat_map utf8_chars (split_on comma s)))))
   end).
 
+(* read_string_array_value + the `Strings` view (0b0f2ab): split(','), "." = missing -- this is
+   resolve_string_array_value *)
 Definition lz_info_strs (vb : list N) : rres ival :=
-  rbind (dec_info_string vb) (fun o =>
-  match o with
-  | None => ROk (IS SNone)
-  | Some s => rbind (lz_strs s) (fun l => ROk (IS (SStrs l)))
-  end).
+  rbind (dec_info_strs vb) (fun v => ROk (IS v)).
 
 (* info/field/value.rs read_value on the bytes of one typed value.  Integer, Float, Flag and the
-   scalar Character / String readers are those of the eager decoder *)
+   String readers are those of the eager decoder; the Character readers decode UTF-8 *)
 Definition lz_info_kind (k : ikind) (vb : list N) : rres ival :=
   match k with
+  | KChar false => lz_info_char vb
   | KChar true => lz_info_chars vb
   | KStr true => lz_info_strs vb
   | _ => dec_info_kind k vb
@@ -377,20 +384,16 @@ Fixpoint lz_validate (ns nf : nat) (bs : list N) : bool :=
   | S nf' => match lz_series ns bs with Some (_, r) => lz_validate ns nf' r | None => false end
   end.
 
-(* Samples::series: until the block is empty.  The fuel is the length of the block (a series is at
-   least three bytes long) *)
-Fixpoint lz_all_series (fuel ns : nat) (bs : list N) : option (list series) :=
-  match bs with
-  | [] => Some []
-  | _ =>
-    match fuel with
-    | O => None
-    | S f =>
-      match lz_series ns bs with
-      | Some (s, r) =>
-        match lz_all_series f ns r with Some l => Some (s :: l) | None => None end
-      | None => None
-      end
+(* Samples::series (a82186d): format_count series from the start of the block; the iterator stops at
+   the first one that does not parse (which, after validate, does not happen).  Bytes after the last
+   series are not looked at. *)
+Fixpoint lz_n_series (ns nf : nat) (bs : list N) : option (list series) :=
+  match nf with
+  | O => Some []
+  | S nf' =>
+    match lz_series ns bs with
+    | Some (s, r) => match lz_n_series ns nf' r with Some l => Some (s :: l) | None => None end
+    | None => None
     end
   end.
 
@@ -456,32 +459,42 @@ Definition lz_float_scalar (x : list N) : rres cellv :=
 Definition lz_cell_string (x : list N) : rres str :=
   if utf8_valid (until_nul x) then ROk (until_nul x) else RErr.
 
+(* t.chars().next(): '.' = missing, no character = "invalid character" *)
+Definition lz_first_char (p : str) : rres (option N) :=
+  match utf8_first p with
+  | Some (c, _) => ROk (char_of_byte c)
+  | None => RErr
+  end.
+
+(* get_char_value, get_string_value, get_char_array_value + `Characters`, get_string_array_value +
+   `Strings` (0b0f2ab: the per-sample text "." is the missing value, an element "." a missing element,
+   the empty text the array [""]; every element of a Character array gives its first character) *)
 Definition lz_string_cell (k : fkind) (x : list N) : rres cellv :=
   rbind (lz_cell_string x) (fun s =>
   match k with
-  | FChar true =>
-    match utf8_first s with
-    | Some (c, _) => ROk (CC (if (c =? dot)%N then None else Some c))
-    | None => RErr                                            (* "invalid character" *)
-    end
-  | FStr true => ROk (CS (if str_eqb s [dot] then None else Some s))
-  | FChar false => rbind (lz_chars s) (fun l => ROk (CCV (Some l)))
-  | FStr false => rbind (lz_strs s) (fun l => ROk (CSV (Some l)))
+  | FChar true => rbind (lz_first_char s) (fun o => ROk (CC o))
+  | FStr true => ROk (CS (str_of_piece s))
+  | FChar false => rbind (map_rres lz_first_char (split_on comma s)) (fun l => ROk (CCV (Some l)))
+  | FStr false => ROk (CSV (cell_strs s))
   | _ => RErr
   end).
 
-(* Series::get(header, i).  isgt: the series' name is GT; kd: header.formats().get(name) with its
-   Number (None also for Number=0); range::<N>(i, len) = size*i*len .. + size*len *)
+(* Series::get(header, i) for i < sample_count (the only indices Samples::iter asks for).  isgt: the
+   series' name is GT; kd: header.formats().get(name) with its Number (None also for Number=0);
+   range::<N>(i, len) = size*i*len .. + size*len.  A GT series of type Int8(0) holds no genotype: the
+   missing value (a1ba5e6) *)
 Definition lz_cell (v44 isgt : bool) (kd : option fkind) (s : series) (i : nat) : rres cellv :=
   let l := znat (S (length (se_pay s))) (se_len s) in
   let code := se_code s in
   let cell (size : nat) := lz_get (size * i * l)%nat (size * l)%nat (se_pay s) in
   if isgt then
     if code =? 1 then
-      match cell 1%nat with
-      | Some x => ROk (CG (Some (lz_genotype v44 x)))
-      | None => RErr                                          (* "missing value" *)
-      end
+      if se_len s =? 0 then ROk (CG None)
+      else
+        match cell 1%nat with
+        | Some x => ROk (CG (Some (lz_genotype v44 x)))
+        | None => RErr                                        (* "missing value" *)
+        end
     else RErr                                                 (* "invalid genotype type" *)
   else
     match kd with
@@ -544,7 +557,7 @@ Definition lz_samples (v44 : bool) (strings : smap) (fk : name -> option fkind) 
   rbind (lz_format_count sb) (fun nf =>
   let ns := Z.to_nat nsz in
   if lz_validate ns (Z.to_nat nf) ib then
-    match lz_all_series (length ib) ns ib with
+    match lz_n_series ns (Z.to_nat nf) ib with
     | None => RErr
     | Some ss =>
       rbind (lz_names strings ss) (fun nms =>
